@@ -400,7 +400,11 @@ func (e *Engine) replayObligation(opts Options, prop, base string, d Discharged)
 			mark(a)
 		}
 	}
-	for _, a := range o.VC() {
+	vcForProbes := o.VC()
+	if d.V.Status != "refuted" {
+		vcForProbes = o.RelaxedVC()
+	}
+	for _, a := range vcForProbes {
 		mark(a)
 	}
 	isParamRoot := map[string]bool{}
@@ -425,7 +429,7 @@ func (e *Engine) replayObligation(opts Options, prop, base string, d Discharged)
 		}
 	}
 	seenSig := map[int]bool{}
-	for _, a := range o.VC() {
+	for _, a := range vcForProbes {
 		collectSigs(a, seenSig)
 	}
 	var keep []probe
@@ -464,6 +468,32 @@ func (e *Engine) replayObligation(opts Options, prop, base string, d Discharged)
 				}
 			}
 		}
+		// post-state of what the parameters point to, as far as the clause reads it
+		{
+			inProp := map[int]bool{}
+			var markP func(t *Term)
+			markP = func(t *Term) {
+				if inProp[t.id] {
+					return
+				}
+				inProp[t.id] = true
+				for _, a := range t.Args {
+					markP(a)
+				}
+			}
+			markP(o.Prop)
+			for i, p := range fn.Params {
+				var all []probe
+				u.walkProbes(p.Name(), u.args[i], p.Type(), 3, &all)
+				for _, q := range all {
+					if q.Parent != "" && inProp[q.T.id] {
+						q.Label = "post:" + q.Label
+						q.Parent = ""
+						outProbes = append(outProbes, q)
+					}
+				}
+			}
+		}
 		u.entry = saved
 	}
 	// ---- model with shaping
@@ -471,14 +501,15 @@ func (e *Engine) replayObligation(opts Options, prop, base string, d Discharged)
 	var vals map[string]string
 	var raw string
 	var err error
+	baseVC := o.VC()
+	if d.V.Status != "refuted" {
+		// the solvers could not decide the full VC: look for a candidate in the quantifier-free relaxation; it only
+		// counts if the real code reproduces it
+		baseVC = o.RelaxedVC()
+	}
 	for level := 0; level <= 2; level++ {
-		saved := u.assumptions
 		shaped := u.shape(all, level)
-		o2 := *o
-		u.assumptions = append(append([]*Term{}, saved[:o.NAssume]...), shaped...)
-		o2.NAssume = len(u.assumptions)
-		vals, raw, err = o2.GetValues(all, 30, base+".model.smt2")
-		u.assumptions = saved
+		vals, raw, err = o.GetValuesFor(append(append([]*Term{}, baseVC...), shaped...), all, 30, base+".model.smt2")
 		if err == nil {
 			break
 		}
@@ -632,7 +663,11 @@ func (e *Engine) replayObligation(opts Options, prop, base string, d Discharged)
 		src.WriteString("\tfmt.Println(\"VERIF-NOPANIC\")\n")
 	}
 	for _, l := range outs {
-		fmt.Fprintf(&src, "\tshow(%q, func() interface{} { return %s })\n", l, l)
+		expr := l
+		if strings.HasPrefix(l, "post:") {
+			expr = ren(l[len("post:"):])
+		}
+		fmt.Fprintf(&src, "\tshow(%q, func() interface{} { return %s })\n", l, expr)
 	}
 	src.WriteString("}\n")
 	testFile := base + "_replay_test.go"
